@@ -163,6 +163,7 @@ def key_of(v):
 class ObjModels:
 	def __init__(self, keys):
 		self.keys = keys
+		self.VOL = z3.Function("vol", z3.IntSort(), z3.IntSort())
 
 	# ---- helpers on locations
 	def rd(self, ip, st, ref):
@@ -355,6 +356,12 @@ class ObjModels:
 			x = a[0].fields[0]
 			if f.endswith("Indexes::first"):
 				return [(st, some(x[1]))]
+			if f.endswith("IntoIterator>::into_iter"):
+				return [(st, some(Agg("ObjIndexes", None, ((x[1],) + tuple(x[2]), 0))))]
+			c = ip.fn_value_call(a[1], [x])
+			if c is not None:
+				# the result of the closure must be wrapped in Some: run it to completion here
+				return [(s2, some(r)) for s2, r in ip.run_sub(st, c.fn, c.args)]
 			raise MirError("Option::map with %r" % (a[1],))
 
 		def opt_and_then(ip, st, a):
@@ -649,7 +656,39 @@ class ObjModels:
 		def from_elem(ip, st, a):
 			return ("vec", tuple(a[0] for _ in range(a[1])))
 
+		def scratch(ip, st, v):
+			"""stores a value in a fresh scratch local of the root frame and returns a reference to it"""
+			k = 2000 + st.aux.get("scratch", 0)
+			st.aux["scratch"] = st.aux.get("scratch", 0) + 1
+			st.frames[0].locals[k] = v
+			return Ref(0, k, ())
+
+		def cm_get(ip, st, a):
+			# code-map entry at a (possibly symbolic) index: its volume is VOL(index), an uninterpreted function
+			return some(scratch(ip, st, Agg("CMEntry", None, (("span", a[1]), self.VOL(a[1] if not isinstance(a[1], int) else z3.IntVal(a[1]))))))
+
+		def opt_unwrap(ip, st, a):
+			if a[0].variant != "Some":
+				raise MirError("PANIC unwrap on None")
+			return a[0].fields[0]
+
+		def obj_indexes_next(ip, st, a):
+			it = self.rd(ip, st, a[0])
+			ps, pos = it.fields
+			if pos >= len(ps):
+				return NONE
+			self.wr(ip, st, a[0], Agg("ObjIndexes", None, (ps, pos + 1)))
+			return some(ps[pos])
+
+		def unwrap_or_default(ip, st, a):
+			return a[0].fields[0] if a[0].variant == "Some" else Agg("ObjIndexes", None, ((), 0))
+
 		base = {
+			"<CodeMap as Deref>::deref": one(lambda ip, st, a: a[0]),
+			"core::slice::get": one(cm_get),
+			"Option::unwrap": one(opt_unwrap),
+			"Option::unwrap_or_default": one(unwrap_or_default),
+			"<object::Indexes as Iterator>::next": one(obj_indexes_next),
 			"Object::get_entries": get_entries(False),
 			"Object::get_entries_with_index": get_entries(True),
 			"<Entries as Iterator>::any": iter_any_all(False),
@@ -805,12 +844,32 @@ class ObjProgram:
 		if m and m.group(1) in self.by:
 			return self.by[m.group(1)]
 		if callee == "@closure":
-			for f in self.closures:
-				if str(raw) in f.header:
-					return f
-			return None
+			path, _, parent = str(raw).partition("@@")
+			cands = [f for f in self.closures if path in f.header]
+			if parent and len(cands) > 1:
+				# macro-generated impls share source locations: the closure of a function is the
+				# first matching closure that FOLLOWS it in the dump
+				pos = {id(f): k for k, f in enumerate(self.fns)}
+				after = [f for f in cands if pos.get(id(f), -1) > int(parent)]
+				if after:
+					return min(after, key=lambda f: pos[id(f)])
+			return cands[0] if cands else None
 		if callee == "@next":
 			return None
+		# crate-local helpers by (type, method): Entry::as_ref / into_mapped, Mapped::new
+		m = re.match(r"^(?:object::Entry|Mapped)::(as_ref|into_mapped|new)$", callee)
+		if m:
+			ty = "object::Entry" if callee.startswith("object::Entry") else "Mapped"
+			for f in self.fns:
+				h = f.header
+				if re.search(r"::%s\(" % m.group(1), h) and (("_1: &object::Entry<K, V>" in h or "_1: object::Entry<K, V>" in h) if ty == "object::Entry" else "-> Mapped<T>" in h):
+					return f
+		# the `next` of the mapped iterators (dispatch on the receiver's type)
+		m = re.match(r"^<(MappedEntries|MappedEntriesWithIndex|MappedValues|MappedValuesWithIndex) as Iterator>::next$", callee)
+		if m:
+			for f in self.fns:
+				if re.search(r"::next\(_1: &mut %s<" % m.group(1), f.header):
+					return f
 		# any other method of Object / Default for Object whose MIR is in the dump
 		m = re.match(r"^(?:<Object as \w+>|Object)::(\w+)$", callee)
 		if m and m.group(1) not in ("iter_mut", "get_entries", "get_entries_with_index"):
@@ -1279,6 +1338,102 @@ class Explorer:
 			search(s, free)
 		return out
 
+	def explore_mapped(self, n_max, budget):
+		"""C11: key-based mapped lookups. Objects of <= n_max entries built by interpreted pushes (keys
+		symbolic), a code map whose volumes are an UNINTERPRETED FUNCTION vol(index) (children of
+		arbitrary size), a symbolic container offset `base`, a symbolic query key: `get_mapped_entries`
+		and `get_mapped` must yield, for every entry carrying the key, in order, the offsets the C05
+		layout gives them: entry i at E(i) = base + 1 + sum_{j<i} (2 + vol(E(j) + 2)), key at E+1, value
+		at E+2. Equality of offsets is decided by z3 over vol and base."""
+		t0 = time.time()
+		prog = self.prog
+		fns = {}
+		for name in ("get_mapped_entries", "get_mapped"):
+			for f in prog.fns:
+				if re.match(r"^object::<impl at src/object/mod\.rs:[0-9: ]+>::%s\(_1: &Object" % name, f.header):
+					fns[name] = f
+			if name not in fns:
+				raise MirError("Object::%s not found in the MIR dump" % name)
+		base = z3.Int("base")
+		self.pairs = 0
+
+		def prove_eq(x, y):
+			if isinstance(x, int) and isinstance(y, int):
+				return x == y
+			s = z3.Solver()
+			s.add(base >= 0)
+			s.add((x if not isinstance(x, int) else z3.IntVal(x)) != (y if not isinstance(y, int) else z3.IntVal(y)))
+			self.keys.queries += 1
+			return s.check() == z3.unsat
+
+		for n in range(0, n_max + 1):
+			st = State()
+			st.frames.append(Frame(None, {1: Agg("Object", None, (("vec", ()), ("imap", ())))}))
+			st.aux["nk"] = 0
+			states = [(st, [])]
+			for j in range(n):
+				nxt = []
+				for s, model in states:
+					k = s.aux["nk"]
+					s.aux["nk"] = k + 1
+					while len(self.keys.vars) <= k:
+						self.keys.fresh()
+					for s2, res in self.call(s, prog.by["push"], [Ref(0, 1, ()), ("key", k), j]):
+						nxt.append((s2, model + [(k, j)]))
+				states = nxt
+			for s, model in states:
+				# expected entry offsets per the C05 layout
+				E = []
+				at = base + 1
+				for j in range(n):
+					E.append(at)
+					at = at + 2 + self.models.VOL(at + 2)
+				q = s.aux["nk"]
+				while len(self.keys.vars) <= q:
+					self.keys.fresh()
+				for which in ("get_mapped_entries", "get_mapped"):
+					s0 = s.fork()
+					s0.aux["nk"] = q + 1
+					s0.frames[0].locals[2] = ("key", q)
+					s0.frames[0].locals[9] = ("codemap",)
+					for s1, it in self.call(s0, fns[which], [Ref(0, 1, ()), Ref(0, 9, ()), base, Ref(0, 2, ())]):
+						for s2, ps in self.positions(s1, model, q):
+							s2.frames[0].locals[3] = it
+							cur = [s2]
+							okay = True
+							for step_i in range(len(ps) + 1):
+								nxt = []
+								for s3 in cur:
+									callee = "<%s as Iterator>::next" % it.ty
+									fn = prog.resolve(callee, callee, [])
+									if fn is None:
+										raise MirError("next of %s not found in the MIR dump" % it.ty)
+									for s4, r in self.call(s3, fn, [Ref(0, 3, ())]):
+										self.pairs += 1
+										if step_i == len(ps):
+											if r.variant != "None":
+												self.violation(s4, [[which, [model, "query k%d" % q]]], "C11:mapped-lookup-yields-nothing-more", "extra item %r" % (r,))
+											else:
+												nxt.append(s4)
+											continue
+										p_ = ps[step_i]
+										if r.variant != "Some":
+											self.violation(s4, [[which, [model, "query k%d" % q]]], "C11:mapped-lookup-yields-every-matching-entry", "ended after %d of %d" % (step_i, len(ps)))
+											continue
+										m_ = r.fields[0]
+										if which == "get_mapped_entries":
+											off, ent = m_.fields
+											good = prove_eq(off, E[p_]) and prove_eq(ent.fields[0].fields[0], E[p_] + 1) and prove_eq(ent.fields[1].fields[0], E[p_] + 2)
+										else:
+											good = prove_eq(m_.fields[0], E[p_] + 2)
+										if not good:
+											self.violation(s4, [[which, [model, "query k%d" % q]]], "C11:mapped-lookup-entry-offset", "match %d (entry %d): yielded %r" % (step_i, p_, m_))
+										else:
+											nxt.append(s4)
+								cur = nxt
+			if budget and time.time() - t0 > budget:
+				return
+
 	def explore(self, depth, budget):
 		t0 = time.time()
 		st = State()
@@ -1448,6 +1603,26 @@ def replay_history(native, history, keyvals):
 	            got=got[first] if first is not None and first < len(got) else None, want=want[first] if first is not None else None)
 
 
+def replay_mapped(native, model, qkey, keyvals):
+	"""mapped lookups of a concrete object (every value an array of one item: volume 2) on the REAL
+	Object with the REAL code map of the parsed document, against the C05 layout"""
+	import subprocess
+
+	name = lambda k: chr(keyvals[k])
+	spec = ",".join("%s:2" % name(k) for k, _ in model)
+	q = name(qkey)
+	p = subprocess.run([native, "mapped", spec, q], stdout=subprocess.PIPE, stderr=subprocess.DEVNULL, timeout=60)
+	got = p.stdout.decode(errors="replace").strip()
+	E = []
+	at = 1
+	for _ in model:
+		E.append(at)
+		at += 2 + 2
+	ps = [i for i, (k, _) in enumerate(model) if name(k) == q]
+	want = "E %s V %s" % (";".join("%d.%d.%d" % (E[i], E[i] + 1, E[i] + 2) for i in ps), ";".join("%d" % (E[i] + 2) for i in ps))
+	return dict(object=spec, query=q, got=got, want=want, reproduced=(got != want))
+
+
 def replay_unordered(native, A, B, keyvals):
 	"""unordered_eq of two concrete objects on the REAL Object, against the permutation criterion"""
 	import subprocess
@@ -1468,6 +1643,7 @@ def main():
 	ap.add_argument("--build", default=os.path.join(HERE, "..", ".build", "obj"))
 	ap.add_argument("--depth", type=int, default=3)
 	ap.add_argument("--unordered", type=int, default=-1, help="C15 mode: pairs of objects of <= this many entries")
+	ap.add_argument("--mapped", type=int, default=-1, help="C11 mode: mapped lookups on objects of <= this many entries")
 	ap.add_argument("--budget", type=float, default=0)
 	ap.add_argument("--mir", default=None)
 	a = ap.parse_args()
@@ -1479,6 +1655,25 @@ def main():
 		out["mir_dump_s"] = round(dt, 1)
 		ex = Explorer(a.repo, text)
 		out["functions_encoded"] = ex.prog.encoded()
+		if a.mapped >= 0:
+			ex.with_content = False
+			ex.explore_mapped(a.mapped, a.budget)
+			native = drvcheck.build_native(a.repo, a.build)
+			for v in ex.violations:
+				kv = list(v.get("keys") or [])
+				while len(kv) < 8:
+					kv.append(0x41 + len(kv))
+				model, q = v["history"][0][1]
+				v["native"] = replay_mapped(native, [tuple(e) for e in model], int(str(q).split("k")[-1]), kv)
+			out.update(max_entries=a.mapped, pairs=ex.pairs, histories=ex.pairs, operations_run=ex.ops_run, mir_steps=ex.ip.stats["steps"], solver_queries=ex.keys.queries,
+			           solver_time_s=round(ex.keys.solver_time, 2), key_variables=len(ex.keys.vars), wall_s=round(time.time() - t0, 1), timed_out=False, violations=ex.violations)
+			out["ok"] = True
+			log("mapped lookups, objects of <= %d entries: %d iterator steps checked, %d solver queries, %.1fs, %d violation(s)" % (a.mapped, ex.pairs, ex.keys.queries, time.time() - t0, len(ex.violations)))
+			if a.out:
+				json.dump(out, open(a.out, "w"), indent=1, default=str)
+			else:
+				print(json.dumps(out, indent=1, default=str)[:4000])
+			return 0
 		if a.unordered >= 0:
 			ex.with_content = False
 			ex.explore_unordered(a.unordered, a.budget)
